@@ -80,7 +80,7 @@ fn integer_ops(e: &mut Eng) {
 }
 
 /// exact check |q - t/1e9| <= 2 ulp(q) in integer arithmetic
-fn time_to_quantity_ok(t: i64, q: f32) -> bool {
+pub fn time_to_quantity_ok(t: i64, q: f32) -> bool {
     if !q.is_finite() {
         return false;
     }
@@ -344,6 +344,54 @@ fn quantity_to_time(e: &mut Eng, thorough: bool, budget: Budget) {
     }
 }
 
+/// Conversions are pure functions of their argument: what was converted just before must not
+/// matter. Consecutive conversions of times that agree in their low 32 / 24 / 16 / 8 bits (and of
+/// second values that agree in their low mantissa bits), each judged on its own.
+fn conversion_pairs(e: &mut Eng) {
+    let bases: [i64; 10] = [0, 1, -1, 1_000_000_000, 1_500_000_000, 7_000_000, -2_500_000_000, 123_456_789_012, 37_421_300_000, -(1 << 40) + 5];
+    let deltas: [i64; 8] = [1 << 32, -(1i64 << 32), 3 << 32, 1 << 33, 1 << 24, 1 << 16, 1 << 8, -(1i64 << 16)];
+    for &b in &bases {
+        for &d in &deltas {
+            let seq = [b, b + d, b, b + 2 * d, b + d];
+            for (k, &t) in seq.iter().enumerate() {
+                e.executions += 1;
+                e.states += 1;
+                e.transitions += 2;
+                e.checks += 2;
+                e.nontrivial += 1;
+                let q = Quantity::from(Time(t));
+                if !time_to_quantity_ok(t, q.value) {
+                    e.violation("time-to-quantity:depends-on-previous-call", 2, || format!("Quantity::from(Time({})) = {:?} when called as element {} of the sequence {:?} (each call must give nanoseconds/1e9 whatever was converted before)", t, q.value, k, seq));
+                    return;
+                }
+                let m = Quantity::new(3.0, MILLIMETER_PER_SECOND) * Time(t);
+                if !time_to_quantity_ok(t, m.value / 3.0) && !(m.value == 3.0 * q.value) {
+                    e.violation("time-to-quantity:depends-on-previous-call", 2, || format!("(3 mm/s) * Time({}) = {:?} as element {} of {:?}", t, m.value, k, seq));
+                    return;
+                }
+                e.outcome(h64(&(t, q.value.to_bits())));
+            }
+        }
+    }
+    // seconds -> Time: consecutive values whose f32 bit patterns agree in the low 16 bits
+    for &v in &[1.5f32, 0.001, 37.4213, -2.25, 4096.5] {
+        let w = f32::from_bits(v.to_bits() ^ 0x0001_0000);
+        for (k, &x) in [v, w, v].iter().enumerate() {
+            e.executions += 1;
+            e.checks += 1;
+            let t = Time::try_from(Quantity::new(x, SECOND));
+            match t {
+                Ok(t) if quantity_to_time_ok(x, t.0) => {}
+                other => {
+                    e.violation("quantity-to-time:depends-on-previous-call", 2, || format!("Time::try_from({:?} s) = {:?} as element {} of the sequence [{:?}, {:?}, {:?}]", x, other, k, v, w, v));
+                    return;
+                }
+            }
+        }
+    }
+    e.sample(|| "Quantity::from(Time(1_500_000_000)) right after Quantity::from(Time(1_500_000_000 + 2^32)) must still be 1.5 s".to_string());
+}
+
 fn other_conversions(e: &mut Eng) {
     let checked = cfg!(feature = "dimcheck");
     for m in -3..=3i8 {
@@ -411,6 +459,7 @@ pub fn run(ctx: &Ctx) -> Vec<Eng> {
         "",
     );
     other_conversions(&mut e4);
+    conversion_pairs(&mut e4);
     for m in -3..=3 {
         for s in -3..=3 {
             crate::c01::mixed_pub(&mut e4, (m, s));
